@@ -7,16 +7,19 @@ Require Import Verif.Check.C03_check.
    input: RMNEnabled, previous outcome type, previous RMNRemoteCfg empty?, its details, destination selector,
           controller init code, ChainBySelector ok, off-ramp address (None = error), query, scripted crypto answer;
    output: (0 observation returned / 1 error / 2 panic, the recorded VerifyReportSignatures call if any) *)
-Definition obs_in := (bool * Z * bool * cfg_detail * N * N * bool * option N * query * bool)%type.
-Definition obs_out := (N * option verify_call)%type.
+Definition obs_in := (bool * Z * bool * cfg_detail * N * N * bool * option N * query * bool * world)%type.
+(* code, recorded verify call, and the observation value returned (also next to an error: commit.Plugin.Observation
+   logs the error and encodes what was returned) *)
+Definition obs_out := (N * option verify_call * obs)%type.
 
 Definition obs_model (i : obs_in) : obs_out :=
-  let '(enabled, ty, cfg_e, d, dest, init, known, off, q, ans) := i in
-  match verify_args enabled (next_state ty) cfg_e d dest init known off q with
-  | Ok None => (0%N, None)
-  | Ok (Some c) => ((if ans then 0 else 1)%N, Some c)
-  | Err => (1%N, None)
-  | _ => (2%N, None)
+  let '(enabled, ty, cfg_e, d, dest, init, known, off, q, ans, w) := i in
+  let st := next_state ty in
+  match verify_args enabled st cfg_e d dest init known off q with
+  | Ok None => (0%N, None, get_observation st q w)
+  | Ok (Some c) => if ans then (0%N, Some c, get_observation st q w) else (1%N, Some c, obs_empty)
+  | Err => (1%N, None, obs_empty)
+  | _ => (2%N, None, obs_empty)
   end.
 Definition report_eqb (a b : rmn_report) : bool :=
   let '(v, ds, ca, off, dg, ls) := a in let '(v', ds', ca', off', dg', ls') := b in
@@ -24,14 +27,25 @@ Definition report_eqb (a b : rmn_report) : bool :=
 Definition call_eqb (a b : verify_call) : bool :=
   let '(s, r, g) := a in let '(s', r', g') := b in
   list_eqb N.eqb s s' && report_eqb r r' && list_eqb N.eqb g g'.
-Definition obs_oeqb : obs_out -> obs_out -> bool := pair_eqb N.eqb (option_eqb call_eqb).
+Definition obs_eqb (a b : obs) : bool :=
+  list_eqb root_eqb (ob_roots a) (ob_roots b) && list_eqb sc_eqb (ob_on a) (ob_on b) &&
+  list_eqb sc_eqb (ob_off a) (ob_off b) && cfg_eqb (ob_cfg a) (ob_cfg b) && Bool.eqb (ob_f a) (ob_f b).
+Definition obs_oeqb (a b : obs_out) : bool :=
+  let '(c, cl, o) := a in let '(c', cl', o') := b in N.eqb c c' && option_eqb call_eqb cl cl' && obs_eqb o o'.
 
 (* the observation clauses of C05 on the implementation's answer *)
 Definition obs_ok (i : obs_in) (o : obs_out) : bool :=
-  let '(enabled, ty, cfg_e, d, dest, init, known, off, q, ans) := i in
-  let '(code, call) := o in
+  let '(enabled, ty, cfg_e, d, dest, init, known, off, q, ans, w) := i in
+  let '(code, call, ob) := o in
   let building := state_eqb (next_state ty) Building in
   negb (N.eqb code 2) &&
+  (* what is returned next to a refusal is empty; an announced retry observes nothing; roots only when building *)
+  (if N.eqb code 1 then obs_is_empty ob else true) &&
+  (if building && q_retry q then obs_is_empty ob else true) &&
+  (if building then true else match ob_roots ob with [] => true | _ => false end) &&
+  (* RMN on: roots are observed only after the bundle's signatures were verified *)
+  (if enabled && negb (match ob_roots ob with [] => true | _ => false end)
+   then match call with Some _ => ans | None => false end else true) &&
   (* an observation in a building round without announced retry needs a verified bundle *)
   (if enabled && building && negb (q_retry q) && N.eqb code 0 then
      match q_sigs q, off, call with
@@ -123,3 +137,130 @@ Definition gate5_ok (i : gate5_in) (c : N) : bool :=
   (if N.eqb c 1 && rmn && negb (N.eqb r 0) then N.leb (f + 1) s else true) &&
   (if N.eqb c 1 then negb (commit_report_empty r 0 gp s) else true) && negb (N.eqb c 2).
 Definition gate5_judge := judge gate5_model N.eqb gate5_ok (fun _ => 0%N).
+
+(* ---- part chain: one round of the processor chain with RMN on or off ----
+   Processor.Query (honest leader, scripted controller) or a Byzantine leader's query -> Processor.Observation of
+   all four oracles (real observerImpl over a scripted, honest reader; recording crypto) -> ValidateObservation ->
+   Processor.Outcome on the valid observations.
+   input: RMNEnabled, max checks, tree size, previous outcome, details of its RMN config, destination, off-ramp
+          address (None = error), on-ramp address per chain (absent = error), leader, crypto answer,
+          reader side of ObserveMerkleRoots (supported chains, answer per chain for the previous outcome's range,
+          zero hash id, hash table; as in C02), on-ramp latest, off-ramp next, RMN remote config, fChain present,
+          consensus observation computed by the real getConsensusObservation on the valid observations.
+   output: leader (code, query, request to the controller), then if a query exists: observation (code, recorded
+           verify call, returned observation, all four oracles alike), validity per oracle, outcome if called *)
+Require Import Verif.Check.C02_check.
+Inductive leader := LHonest (ctrl : ctrl_ans) | LByz (q : query).
+Definition roots_side := (option (list N) * list (N * option (list msg)) * N * list ((N * N) * N))%type.
+Definition chain_in :=
+  (bool * N * N * outcome * cfg_detail * N * option N * list (N * N) * leader * bool * roots_side *
+   list seq_chain * list seq_chain * rmn_cfg * bool * option cons)%type.
+Definition lead_out := (N * option query * option (list lane_req))%type.
+Definition obs4_out := (N * option verify_call * obs * bool)%type.
+Definition chain_out := (lead_out * option (obs4_out * list bool * option outcome))%type.
+
+Definition world_of (prev : outcome) (rs : roots_side) (onr : list (N * N)) (won woff : list seq_chain) (wcfg : rmn_cfg) (wf : bool) : world :=
+  let '(sup, ans, zero, tbl) := rs in
+  mkWorld (sort_by root_le (observe_roots (tbl_h tbl) zero sup (o_ranges prev) (reader_of ans) (fun k => alookup k onr)))
+          won woff wcfg wf.
+
+Definition chain_model (i : chain_in) : chain_out :=
+  let '(enabled, max, n, prev, d, dest, offr, onr, lead, ans, rs, won, woff, wcfg, wf, co) := i in
+  let st := next_state (o_type prev) in
+  let cfg_e := cfg_is_empty (o_cfg prev) in
+  let '(qr, reqs) := match lead with
+                     | LHonest ctrl => query_model enabled st cfg_e 1 offr (o_ranges prev) (fun k => alookup k onr) ctrl
+                     | LByz q => (Ok q, None)
+                     end in
+  match qr with
+  | Ok q =>
+      let w := world_of prev rs onr won woff wcfg wf in
+      let '(r, o) := observation_full (fun _ => ans) enabled st cfg_e d dest 1 true offr q w in
+      let call := match verify_args enabled st cfg_e d dest 1 true offr q with Ok c => c | _ => None end in
+      let v := validate_retry q o in
+      ((0%N, Some q, reqs),
+       Some ((res_code r, call, o, true), [v; v; v; v],
+             if v then Some (get_outcome max n prev q co) else None))
+  | _ => ((1%N, None, reqs), None)
+  end.
+
+Definition query_eqb (a b : query) : bool :=
+  Bool.eqb (q_retry a) (q_retry b) &&
+  option_eqb (fun x y =>
+    list_eqb (fun s t => match s, t with SigNil, SigNil | SigBad, SigBad => true | SigOk u, SigOk v => N.eqb u v | _, _ => false end)
+             (b_sigs x) (b_sigs y) &&
+    list_eqb (fun s t => match s, t with
+                         | LaneNil, LaneNil | LaneNoSource, LaneNoSource | LaneNoInterval, LaneNoInterval | LaneBadRoot, LaneBadRoot => true
+                         | LaneOk a1 a2 a3 a4 a5, LaneOk b1 b2 b3 b4 b5 => N.eqb a1 b1 && N.eqb a2 b2 && N.eqb a3 b3 && N.eqb a4 b4 && N.eqb a5 b5
+                         | _, _ => false end) (b_lanes x) (b_lanes y)) (q_sigs a) (q_sigs b).
+Definition req_eqb (a b : lane_req) : bool :=
+  let '(k, ad, s, e) := a in let '(k', ad', s', e') := b in N.eqb k k' && N.eqb ad ad' && N.eqb s s' && N.eqb e e'.
+Definition lead_eqb (a b : lead_out) : bool :=
+  let '(c, q, r) := a in let '(c', q', r') := b in
+  N.eqb c c' && option_eqb query_eqb q q' && option_eqb (list_eqb req_eqb) r r'.
+Definition obs4_eqb (a b : obs4_out) : bool :=
+  let '(c, cl, o, al) := a in let '(c', cl', o', al') := b in
+  N.eqb c c' && option_eqb call_eqb cl cl' && obs_eqb o o' && Bool.eqb al al'.
+Definition chain_oeqb (a b : chain_out) : bool :=
+  lead_eqb (fst a) (fst b) &&
+  option_eqb (fun x y => let '(o, v, oc) := x in let '(o', v', oc') := y in
+                         obs4_eqb o o' && list_eqb Bool.eqb v v' && option_eqb outcome_eqb oc oc') (snd a) (snd b).
+
+(* the C05 clauses on the implementation's round *)
+Definition chain_ok (i : chain_in) (o : chain_out) : bool :=
+  let '(enabled, max, n, prev, d, dest, offr, onr, lead, ans, rs, won, woff, wcfg, wf, co) := i in
+  let '((lc, lq, lreq), rest) := o in
+  let building := state_eqb (next_state (o_type prev)) Building in
+  negb (N.eqb lc 2) &&
+  (* honest leader: the controller is asked for exactly the previous outcome's ranges with the bound addresses; a
+     bundle comes only from the controller; a timeout gives the retry query without bundle *)
+  (match lead, lq with
+   | LHonest ctrl, Some q =>
+       match lreq with
+       | Some reqs => enabled && building &&
+                      option_eqb (list_eqb req_eqb) (query_requests (o_ranges prev) (fun k => alookup k onr)) (Some reqs) &&
+                      match ctrl with
+                      | CtrlSigs b => query_eqb q (mkQuery false (Some b))
+                      | CtrlTimeout => query_eqb q (mkQuery true None)
+                      | CtrlErr => false
+                      end
+       | None => query_eqb q (mkQuery false None)
+       end
+   | _, _ => true
+   end) &&
+  match lq, rest with
+  | Some q, Some ((oc, call, ob, alike), valid, out) =>
+      negb (N.eqb oc 2) && alike &&
+      (* the value returned next to a refusal is empty *)
+      (if N.eqb oc 1 then obs_is_empty ob else true) &&
+      (* an announced retry in a building round: nothing observed *)
+      (if building && q_retry q then obs_is_empty ob else true) &&
+      (* merkle roots are observed only in a building round *)
+      (if building then true else match ob_roots ob with [] => true | _ => false end) &&
+      (* RMN on: an observation carrying roots was made only after the bundle's signatures were verified *)
+      (if enabled && negb (match ob_roots ob with [] => true | _ => false end)
+       then match call with Some _ => ans | None => false end else true) &&
+      match out with
+      | None => true
+      | Some oo =>
+          (* RMN on, building round: a NEW outcome carrying roots needs a bundle that the oracle verified: the crypto
+             oracle was called with exactly the bundle's lane updates and signatures and answered yes; the roots are
+             among those lane updates and the signatures are the verified ones *)
+          (if enabled && building && negb (outcome_eqb oo prev) && negb (match o_roots oo with [] => true | _ => false end)
+           then match call, q_sigs q with
+                | Some (sigs, (_, _, _, _, _, lanes), _), Some b =>
+                    ans &&
+                    option_eqb (list_eqb root_eqb) (parse_lanes (b_lanes b)) (Some lanes) &&
+                    option_eqb (list_eqb N.eqb) (parse_sigs (b_sigs b)) (Some sigs) &&
+                    forallb (fun r => existsb (root_eqb r) lanes) (o_roots oo) &&
+                    list_eqb N.eqb (o_sigs oo) sigs
+                | _, _ => false
+                end
+           else true) &&
+          (if building && q_retry q then outcome_eqb oo prev else true) &&
+          (match o_roots oo with [] => match o_sigs oo with [] => true | _ => false end | _ => true end)
+      end
+  | Some _, None => false
+  | None, _ => true
+  end.
+Definition chain_judge := judge chain_model chain_oeqb chain_ok (fun _ => 0%N).
